@@ -620,6 +620,12 @@ func main() {
 	for i := 0; i < o.N/8; i++ {
 		recipes = append(recipes, genCfgRecipe(crng))
 	}
+	// round 5: recycled receivers (own stream, own generator state: the three streams above are unchanged)
+	recipes = append(recipes, fieldsSweep()...)
+	rrng := NewRng(o.Seed ^ 0x4ec7)
+	for i := 0; i < o.N/2; i++ {
+		recipes = append(recipes, genRecvRecipe(rrng))
+	}
 	var orc []OracleRec
 	for i, rc := range recipes {
 		if os.Getenv("C18_TRACE") != "" {
@@ -646,7 +652,7 @@ func main() {
 }
 
 // one case writer per Coq case type: JSON formats (Corr.v), tables (TableCorr.v), configurations (ConfigCorr.v)
-type writers struct{ json, table, cfg *CaseWriter }
+type writers struct{ json, table, cfg, recv *CaseWriter }
 
 func newWriters(dir, prefix string) *writers {
 	w := NewCaseWriter(dir, prefix+"cases", header, "mism", 60)
@@ -658,9 +664,15 @@ func newWriters(dir, prefix string) *writers {
 	c := NewCaseWriter(dir, prefix+"ccases", cheader, "cmism", 60)
 	c.Type = "ccase"
 	c.Rule = "configuration cases: non-trivial when ExportConfig -> JSON -> ImportConfig succeeded on a nested or multi-parameter distribution, or the malformed configuration reached ImportConfig; distinct = distinct (family path, outcome kinds)"
-	return &writers{w, t, c}
+	rv := NewCaseWriter(dir, prefix+"rcases", rheader, "rmism", 40)
+	rv.Type = "rcase"
+	rv.Rule = "recycled-receiver cases: non-trivial when the bytes were decoded successfully into a receiver that was not fresh; distinct = distinct (kind, element type, receiver shape, byte length, outcome)"
+	return &writers{w, t, c, rv}
 }
 func (ws *writers) pick(kind string) *CaseWriter {
+	if _, _, ok := recvKind(kind); ok {
+		return ws.recv
+	}
 	if _, _, ok := tableKind(kind); ok {
 		return ws.table
 	}
@@ -670,7 +682,7 @@ func (ws *writers) pick(kind string) *CaseWriter {
 	return ws.json
 }
 func (ws *writers) flush() {
-	for _, w := range []*CaseWriter{ws.json, ws.table, ws.cfg} {
+	for _, w := range []*CaseWriter{ws.json, ws.table, ws.cfg, ws.recv} {
 		if err := w.Flush(); err != nil {
 			Die("flush: %v", err)
 		}
@@ -703,11 +715,13 @@ func hunt(o Opts) {
 		recipes = append(recipes, in.Cases...)
 	}
 	for i := 0; i < o.N; i++ {
-		switch i % 4 {
+		switch i % 6 {
 		case 1, 3:
 			recipes = append(recipes, genTableRecipe(rng))
 		case 2:
 			recipes = append(recipes, genCfgRecipe(rng))
+		case 4, 5:
+			recipes = append(recipes, genRecvRecipe(rng))
 		default:
 			recipes = append(recipes, genRecipe(rng))
 		}
@@ -715,7 +729,7 @@ func hunt(o Opts) {
 	seen := map[string]bool{}
 	var out []OracleRec
 	for i, rc := range recipes {
-		if rc.Kind == "t-lit" {
+		if rc.Kind == "t-lit" || rc.Kind == "rv-fields" {
 			continue
 		}
 		for _, f := range runRecipe(rc).Failures {
@@ -757,7 +771,7 @@ func replay(o Opts) {
 		Die("replay file holds no recipe")
 	}
 	res := runRecipe(*rc)
-	for _, old := range []string{"replay_0.v", "replay_tcases_0.v", "replay_ccases_0.v", "replay_cases_0.v"} {
+	for _, old := range []string{"replay_0.v", "replay_tcases_0.v", "replay_ccases_0.v", "replay_cases_0.v", "replay_rcases_0.v"} {
 		os.Remove(filepath.Join(o.Out, old))
 	}
 	ws := newWriters(o.Out, "replay_")
